@@ -4,6 +4,7 @@ import (
 	"bytes"
 	"fmt"
 	"github.com/fxamacker/cbor/v2"
+	"math/big"
 	"reflect"
 
 	cose "github.com/veraison/go-cose"
@@ -168,7 +169,11 @@ func runC12(c *Collector, r *Rng, thorough bool) {
 		if r.Chance(1, 12) {
 			hp.HashValue = nil
 		}
-		switch r.Intn(6) {
+		switch r.Intn(8) {
+		case 4:
+			hp.PreimageContentType = *big.NewInt(42) // a bignum is not a uint
+		case 5:
+			hp.PreimageContentType = big.NewInt(42)
 		case 0:
 			hp.PreimageContentType = "application/json"
 		case 1:
@@ -243,6 +248,32 @@ func runC12(c *Collector, r *Rng, thorough bool) {
 			}
 		}
 	}
+	// ---- verify side, exhaustively: each governed label in the unprotected bucket of an otherwise good envelope,
+	// with every kind of value, alone and next to other parameters ----
+	for _, l := range []int64{3, 258, 259, 260} {
+		for vi, v := range []*W{wTstr("a/b", -1), wUint(0, -1), wUint(50, -1), wUint(1<<63-1, -1), wUint(1<<63, -1), wUint(1<<64-1, -1), wInt(-16, -1), wInt(-1<<63, -1),
+			wNint(1<<64-1, -1), wBstr([]byte{1}, -1), wBool(true), wNull(), wArr(-1), wMap(-1), wFloat64(1.5)} {
+			for _, withKid := range []bool{false, true} {
+				ukv := []*W{wInt(l, -1), v.Clone()}
+				if withKid {
+					ukv = append(ukv, wInt(4, -1), wBstr([]byte("kid"), -1))
+				}
+				t := wTag(18, -1, wArr(-1, wBstr(wMap(-1, wInt(1, -1), wInt(-7, -1), wInt(258, -1), wInt(-16, -1)).Ser(), -1), wMap(-1, ukv...), wBstr(r.Bytes(32), -1), wBstr([]byte{1, 2, 3}, -1)))
+				data := t.Ser()
+				vf := &spyVerifier{alg: -7}
+				op, obs, msg, err, p := execVerifyHE(vf, data)
+				if p {
+					c.Fail("C12/panic", "VerifyHashEnvelope panicked", map[string]any{"data": hx(data)})
+					continue
+				}
+				addCase(c, fmt.Sprintf("verify/governed-label-unprotected/%d", l), op, obs, true)
+				_ = vi
+				if err == nil || msg != nil {
+					c.Fail("C12/nonconforming-envelope-accepted", fmt.Sprintf("VerifyHashEnvelope accepted an envelope with label %d in the unprotected bucket (value %x)", l, v.Ser()), map[string]any{"data": hx(data)})
+				}
+			}
+		}
+	}
 	// ---- verify side: edits of a well-formed envelope ----
 	m := 150
 	if thorough {
@@ -256,7 +287,7 @@ func runC12(c *Collector, r *Rng, thorough bool) {
 		}
 		pkv := []*W{wInt(1, -1), wInt(-7, -1), wInt(258, -1), wInt(ha, -1)}
 		if r.Bool() {
-			pkv = append(pkv, wInt(259, -1), pick(r, []*W{wTstr("a/b", -1), wUint(50, -1), wInt(-1, -1), wBstr([]byte{1}, -1)}))
+			pkv = append(pkv, wInt(259, -1), pick(r, []*W{wTstr("a/b", -1), wUint(50, -1), wInt(-1, -1), wBstr([]byte{1}, -1), wTag(2, -1, wBstr([]byte{42}, -1)), wTag(3, -1, wBstr([]byte{1}, -1))}))
 		}
 		if r.Bool() {
 			pkv = append(pkv, wInt(260, -1), pick(r, []*W{wTstr("loc", -1), wTstr("loc", -1), wUint(1, -1)}))
@@ -270,7 +301,8 @@ func runC12(c *Collector, r *Rng, thorough bool) {
 			pkv = append(pkv[:idx], pkv[idx+2:]...)
 			class = "moved-to-unprotected"
 		case 1:
-			ukv = append(ukv, wInt(pick(r, []int64{3, 258, 259, 260}), -1), wTstr("a/b", -1))
+			// ... whatever its value: text, integers up to the largest the wire can carry, other kinds
+			ukv = append(ukv, wInt(pick(r, []int64{3, 258, 259, 260}), -1), pick(r, []*W{wTstr("a/b", -1), wTstr("a/b", -1), wUint(1<<64-1, -1), wUint(1<<63, -1), wInt(-16, -1), wBool(true), wArr(-1), wInt(-1<<63, -1)}))
 			class = "added-to-unprotected"
 		case 2:
 			pkv = append(pkv, wInt(3, -1), wTstr("a/b", -1))
@@ -345,6 +377,9 @@ func c13Values() []hvalue {
 		{"countersignature-list-empty", []*cose.Countersignature{}, wArr(-1)},
 		{"countersignature-list-nil", []*cose.Countersignature{nil}, wArr(-1, wNull())},
 		{"float", 1.5, wFloat64(1.5)},
+		{"bignum-pos", *big.NewInt(42), wTag(2, -1, wBstr([]byte{42}, -1))},
+		{"bignum-neg", *big.NewInt(-7), wTag(3, -1, wBstr([]byte{6}, -1))},
+		{"bignum-ptr", big.NewInt(42), nil},
 		// Go-only kinds: byte-slice-like types that are not []byte; what they put on the wire is not (always) a bstr
 		{"named-byte-slice", namedBytes{1, 2}, nil},
 		{"raw-cbor-uint", cbor.RawMessage{0x01}, nil},
